@@ -133,6 +133,13 @@ func (d *PathDecoder) candidatesFromHooks(ctx context.Context, attr *hclsyntax.A
 		// position here.
 		editRng.End = pos
 	}
+	if pos.Byte < editRng.Start.Byte {
+		// The cursor may be placed before the expression (right after "=",
+		// see isPosInsideAttrExpr). The candidate is inserted at the cursor
+		// then, as expression candidates are.
+		editRng.Start = pos
+		editRng.End = pos
+	}
 	prefixRng := attr.Expr.Range()
 	prefixRng.End = pos
 	prefixBytes, _ := d.bytesFromRange(prefixRng)
